@@ -248,6 +248,11 @@ impl Loads {
             }
             if rng.chance(1, 25) {
                 edges[a].push((n + rng.below(2), rng.below(3) as u8));
+                // ... often behind a target that the module imports twice
+                if edges[a].len() > 1 && rng.chance(1, 2) {
+                    let (b, _) = edges[a][0];
+                    edges[a].insert(1, (b, rng.below(4) as u8));
+                }
             }
         }
         let layout = rng.below(4) as u8;
@@ -462,6 +467,23 @@ fn run_case(g: &Graph, family: &str, rng: &mut Rng, st: &mut Stats) -> Vec<Viola
             None => false,
         };
         st.inc("located_load_errors_checked");
+        // "if an import cannot be found it reports that import": the line(s) the span of an InvalidModule error
+        // touches hold the `use` statement of a missing target of that module
+        if let (true, "InvalidModule", Some(t)) = (ok, r.err_kind.as_str(), text) {
+            if let Some(i) = (0..g.n).find(|i| Sources::locator(&g.file(*i)).url().as_str() == loc) {
+                let lo = t[..*a].rfind('\n').map(|x| x + 1).unwrap_or(0);
+                let hi = t[*b..].find('\n').map(|x| b + x).unwrap_or(t.len());
+                let lines = &t[lo..hi];
+                let names_missing = g.edges[i].iter().any(|(j, v)| *j >= g.n && lines.contains(&format!("\"{}\"", g.spelled(i, *j, *v))));
+                st.inc("missing_import_positions_checked");
+                if !names_missing && g.has_missing() && !g.has_cycle() {
+                    out.push(Violation::new(
+                        "the error for an import that cannot be found is not located at that import",
+                        json!({"signature": "C10 missing-import-reported-at-another-statement", "span": format!("{loc}#{a}..{b}"), "lines": lines, "graph": g.to_json()}),
+                    ));
+                }
+            }
+        }
         if !ok {
             out.push(Violation::new(
                 "a load error carries a span outside the text of the module it names",
